@@ -181,6 +181,7 @@ impl<'tcx> Cx<'tcx> {
                         if vi.as_usize() < adt.variants().len() {
                             name = adt.variant(vi).name.to_string();
                         }
+                        e.set("adt", J::s(&defstr(tcx, adt.did())));
                     }
                     e.set("name", J::s(&name));
                 }
